@@ -88,4 +88,51 @@ def linksOfAssoc (u : UC) (m : MM) (a : AssocM) : List (Nat × Nat) :=
 /-- the links of a metamodel: per association, in the order of `m.assocs` -/
 def linksOf (u : UC) (m : MM) : List (AssocM × List (Nat × Nat)) := m.assocs.map (fun a => (a, linksOfAssoc u m a))
 
+/-! ### what `getattr` returns for a referential attribute after the load
+
+  `populate_connections` ends by deleting every referential attribute (the source keys of the associations, by their exact
+  names) from the instance `__dict__`.  From then on `getattr(inst, n)` runs the property `formalize` installed: the
+  property of the LAST association (in definition order) that has `n` as source key asks `navigate_one` for the partner
+  across that association; without a partner it falls back to the property of the association before it (`alt_prop`), and
+  without any to `None`; with a partner it reads the paired identifying attribute of the partner.
+
+  `readThrough` models ONE step of that: the partner's identifying attribute is taken from the partner's stored cell.  When
+  that attribute is referential itself Python reads it through the partner's links in turn (C02 / C03 model that with fuel;
+  on cyclic keys it does not terminate: RecursionError).  On a metamodel that is a FIXED POINT of `readThrough` -- every
+  stored cell already is what its own read returns -- the nested read returns the stored cell as well, so the fixed point
+  (`MM.ReadsFixed`, up to unset ≡ null value) is what the theorems of C01 ask of the reloaded metamodel. -/
+
+/-- the (association, paired identifying attribute) through which attribute `n` of the class `kind` is read, in the order
+    the properties consult them: last formalized first -/
+def refOccurrences (u : UC) (m : MM) (kind n : Name) : List (AssocM × Name) :=
+  (m.assocs.flatMap fun a =>
+    if u.upper a.src.kind == u.upper kind then ((a.src.keys.zip a.tgt.keys).filter (fun kk => kk.1 == n)).map (fun kk => (a, kk.2))
+    else []).reverse
+
+/-- `fget` along the chain of properties: the first association with a partner decides -/
+def readRef (u : UC) (m : MM) (sc : ClassM) (s : List (Option Val)) : List (AssocM × Name) → Option Val
+  | [] => none
+  | (a, p) :: rest =>
+    match m.findClass u a.tgt.kind with
+    | none => readRef u m sc s rest
+    | some tc =>
+      match tc.rows.find? (rowsMatch u a sc tc s) with
+      | some t => (keyCell u tc t (colCI u tc.attrs p)).2
+      | none => readRef u m sc s rest
+
+/-- one cell: a referential attribute through the links, any other as stored -/
+def readCell (u : UC) (m : MM) (c : ClassM) (s : List (Option Val)) (n : Name) (v : Option Val) : Option Val :=
+  if (refOccurrences u m c.kind n).isEmpty then v else readRef u m c s (refOccurrences u m c.kind n)
+
+/-- the cells `getattr` returns for one row -/
+def readCells (u : UC) (m : MM) (c : ClassM) (s : List (Option Val)) : List (Name × Name) → List (Option Val) → List (Option Val)
+  | a :: as, v :: vs => readCell u m c s a.1 v :: readCells u m c s as vs
+  | _, vs => vs
+
+def readRow (u : UC) (m : MM) (c : ClassM) (s : List (Option Val)) : List (Option Val) := readCells u m c s c.attrs s
+
+/-- the metamodel as `getattr` shows it after the load -/
+def MM.readThrough (u : UC) (m : MM) : MM :=
+  ⟨m.classes.map (fun c => { c with rows := c.rows.map (readRow u m c) }), m.assocs⟩
+
 end Pyx.Sql
